@@ -1279,4 +1279,128 @@ theorem wfCheck_sound (m : Mol) (h : m.wfCheck = true) : m.WF := by
     have := h6 n hn
     simpa [hb] using this
 
+
+
+/-! ### `bfs_edges` and `dfs_edges` yield growth sequences, for every graph -/
+
+theorem growth_snoc (acc : List Node) (es : List Edge) (e : Edge) (h : Growth acc es)
+    (h1 : e.1 ∈ acc ++ es.map (·.2)) (h2 : e.2 ∉ acc ++ es.map (·.2)) : Growth acc (es ++ [e]) := by
+  induction es generalizing acc with
+  | nil => exact ⟨by simpa using h1, by simpa using h2, trivial⟩
+  | cons e0 es ih =>
+    obtain ⟨a, b, c⟩ := h
+    refine ⟨a, b, ?_⟩
+    apply ih _ c
+    · simpa [List.append_assoc] using h1
+    · simpa [List.append_assoc] using h2
+
+/-- state invariant shared by both traversals: the edges yielded so far grow a tree from `root` and the
+set of seen nodes is exactly `root` and the children yielded so far -/
+structure SearchInv (root : Node) (seen : List Node) (out : List Edge) : Prop where
+  growth : Growth [root] out
+  seenIff : ∀ x, x ∈ seen ↔ x ∈ [root] ++ out.map (·.2)
+
+theorem searchInv_yield {root : Node} {seen : List Node} {out : List Edge} (inv : SearchInv root seen out)
+    {p c : Node} (hp : p ∈ seen) (hc : c ∉ seen) {seen' : List Node}
+    (hs : ∀ x, x ∈ seen' ↔ x ∈ seen ∨ x = c) : SearchInv root seen' (out ++ [(p, c)]) := by
+  refine ⟨growth_snoc _ _ _ inv.growth ((inv.seenIff p).1 hp) (fun h => hc ((inv.seenIff c).2 h)), ?_⟩
+  intro x
+  rw [hs, inv.seenIff]
+  simp [or_assoc]
+
+theorem bfsScan_inv (root p : Node) : ∀ (cs seen next : List Node) (out : List Edge),
+    SearchInv root seen out → p ∈ seen → (∀ x ∈ next, x ∈ seen) →
+    SearchInv root (bfsScan p cs seen next out).1 (bfsScan p cs seen next out).2.2 ∧
+    (∀ x ∈ (bfsScan p cs seen next out).2.1, x ∈ (bfsScan p cs seen next out).1) ∧
+    (∀ x ∈ seen, x ∈ (bfsScan p cs seen next out).1) := by
+  intro cs
+  induction cs with
+  | nil => intro seen next out inv _ hn; exact ⟨inv, hn, fun x h => h⟩
+  | cons c cs ih =>
+    intro seen next out inv hp hn
+    unfold bfsScan
+    split
+    · exact ih seen next out inv hp hn
+    · rename_i hc
+      have hc' : c ∉ seen := by simpa using hc
+      have inv' : SearchInv root (seen ++ [c]) (out ++ [(p, c)]) :=
+        searchInv_yield inv hp hc' (by intro x; simp)
+      obtain ⟨a, b, d⟩ := ih (seen ++ [c]) (next ++ [c]) (out ++ [(p, c)]) inv' (by simp [hp])
+        (by intro x hx; rcases List.mem_append.1 hx with h | h
+            · exact List.mem_append.2 (Or.inl (hn x h))
+            · exact List.mem_append.2 (Or.inr h))
+      exact ⟨a, b, fun x hx => d x (List.mem_append.2 (Or.inl hx))⟩
+
+theorem bfsLoop_inv (adj : List (Node × List Node)) (root : Node) : ∀ (fuel : Nat) (queue seen : List Node)
+    (out : List Edge), SearchInv root seen out → (∀ x ∈ queue, x ∈ seen) →
+    Growth [root] (bfsLoop adj fuel queue seen out) := by
+  intro fuel
+  induction fuel with
+  | zero => intro queue seen out inv _; exact inv.growth
+  | succ fuel ih =>
+    intro queue seen out inv hq
+    cases queue with
+    | nil => exact inv.growth
+    | cons p queue =>
+      simp only [bfsLoop]
+      obtain ⟨a, b, d⟩ := bfsScan_inv root p (neighbors adj p) seen [] out inv (hq p (List.mem_cons_self)) (by simp)
+      apply ih _ _ _ a
+      intro x hx
+      rcases List.mem_append.1 hx with h | h
+      · exact d x (hq x (List.mem_cons_of_mem _ h))
+      · exact b x h
+
+theorem bfs_growth (adj : List (Node × List Node)) (root : Node) : TreeGrowth root (bfsEdges adj root) :=
+  bfsLoop_inv adj root _ [root] [root] [] ⟨trivial, by intro x; simp⟩ (by simp)
+
+theorem dfsLoop_inv (adj : List (Node × List Node)) (root : Node) : ∀ (fuel : Nat)
+    (stack : List (Node × List Node)) (visited : List Node) (out : List Edge),
+    SearchInv root visited out → (∀ f ∈ stack, f.1 ∈ visited) →
+    Growth [root] (dfsLoop adj fuel stack visited out) := by
+  intro fuel
+  induction fuel with
+  | zero => intro stack visited out inv _; exact inv.growth
+  | succ fuel ih =>
+    intro stack visited out inv hs
+    cases stack with
+    | nil => exact inv.growth
+    | cons f stack =>
+      obtain ⟨p, cs⟩ := f
+      cases cs with
+      | nil =>
+        simp only [dfsLoop]
+        exact ih _ _ _ inv (fun f hf => hs f (List.mem_cons_of_mem _ hf))
+      | cons c cs =>
+        simp only [dfsLoop]
+        split
+        · apply ih _ _ _ inv
+          intro f hf
+          rcases List.mem_cons.1 hf with rfl | h
+          · exact hs (p, c :: cs) (List.mem_cons_self)
+          · exact hs f (List.mem_cons_of_mem _ h)
+        · rename_i hc
+          have hc' : c ∉ visited := by simpa using hc
+          have hp : p ∈ visited := hs (p, c :: cs) (List.mem_cons_self)
+          have inv' : SearchInv root (c :: visited) (out ++ [(p, c)]) :=
+            searchInv_yield inv hp hc' (by intro x; simp [or_comm])
+          apply ih _ _ _ inv'
+          intro f hf
+          rcases List.mem_cons.1 hf with rfl | h
+          · exact List.mem_cons_self
+          · rcases List.mem_cons.1 h with rfl | h'
+            · exact List.mem_cons_of_mem _ hp
+            · exact List.mem_cons_of_mem _ (hs f (List.mem_cons_of_mem _ h'))
+
+theorem dfs_growth (adj : List (Node × List Node)) (root : Node) : TreeGrowth root (dfsEdges adj root) :=
+  dfsLoop_inv adj root _ _ [root] [] ⟨trivial, by intro x; simp⟩ (by simp)
+
+/-- `list(search_tree.edges)` of the model is a tree listed parents first for EVERY graph, root and
+tree kind -/
+theorem searchPath_treePath (adj : List (Node × List Node)) (root : Node) (dfs : Bool) :
+    TreePath root (searchPath adj root dfs) := by
+  unfold searchPath
+  cases dfs
+  · exact treePath_of_growth root _ (bfs_growth adj root)
+  · exact treePath_of_growth root _ (dfs_growth adj root)
+
 end PolyplyVerif.Proofs.Walk
